@@ -137,14 +137,14 @@ Proof. exact ex_hyps. Qed.
    gen/Small_probs_gen.v, IS the model's calc_probs - for every number structure
    (Q and binary64), every counter and every value of a subscript that raises ---- *)
 Theorem C06_source_calculate_probabilities_is_model :
-  forall (O : numops) (undef_pair : str * num O) (c : counter O),
-  py_calculate_probabilities undef_pair c = calc_probs c.
+  forall (O : numops) (nmul : num O -> num O -> num O) (undef_pair : str * num O) (c : counter O),
+  py_calculate_probabilities nmul undef_pair c = calc_probs c.
 Proof. exact (@small_calc_probs_eq). Qed.
 
 (* the main statements transported to the source *)
-Theorem C06_source_each_once_sorted : forall (undef_pair : str * Q) (items : list str), items <> [] ->
+Theorem C06_source_each_once_sorted : forall (nmul : Q -> Q -> Q) (undef_pair : str * Q) (items : list str), items <> [] ->
   let c := @of_counts QNum (tally items) in
-  let file := @py_calculate_probabilities QNum undef_pair c in
+  let file := @py_calculate_probabilities QNum nmul undef_pair c in
   file = map (fun kv => (fst kv, (snd kv / total c)%Q)) (most_common c) /\
   Permutation (most_common c) c /\
   NoDup (map fst file) /\
@@ -156,20 +156,20 @@ Theorem C06_source_each_once_sorted : forall (undef_pair : str * Q) (items : lis
   map fst c = nodup_first items.
 Proof. exact small_each_once_sorted. Qed.
 
-Theorem C06_source_sum_one_Q : forall (undef_pair : str * Q) (c : counter QNum),
-  ~ (total c == 0)%Q -> (qsum (map snd (@py_calculate_probabilities QNum undef_pair c)) == 1)%Q.
+Theorem C06_source_sum_one_Q : forall (nmul : Q -> Q -> Q) (undef_pair : str * Q) (c : counter QNum),
+  ~ (total c == 0)%Q -> (qsum (map snd (@py_calculate_probabilities QNum nmul undef_pair c)) == 1)%Q.
 Proof. exact small_sum_one_Q. Qed.
 
-Theorem C06_source_F64_sorted_unit : forall (undef_pair : str * PrimFloat.float) (c : counter FNum),
+Theorem C06_source_F64_sorted_unit : forall (nmul : PrimFloat.float -> PrimFloat.float -> PrimFloat.float) (undef_pair : str * PrimFloat.float) (c : counter FNum),
   Forall (fun kv => okbF (snd kv) = true /\ (snd kv <=? total c)%float = true) c ->
   okbF (total c) = true -> (0 <? total c)%float = true ->
-  Sorted prob_desc (@py_calculate_probabilities FNum undef_pair c) /\
-  Forall (fun kv => unitbF (snd kv) = true) (@py_calculate_probabilities FNum undef_pair c).
+  Sorted prob_desc (@py_calculate_probabilities FNum nmul undef_pair c) /\
+  Forall (fun kv => unitbF (snd kv) = true) (@py_calculate_probabilities FNum nmul undef_pair c).
 Proof. exact small_F64_sorted_unit. Qed.
 
 Example C06_source_F64_example :
   let c : counter FNum := [([97], 2%float); ([98], 2%float); ([99], 1%float)]%N in
-  @py_calculate_probabilities FNum ([], 0%float) c =
+  @py_calculate_probabilities FNum PrimFloat.mul ([], 0%float) c =
   [([97], 0x1.999999999999ap-2%float); ([98], 0x1.999999999999ap-2%float); ([99], 0x1.999999999999ap-3%float)]%N.
 Proof. exact small_F64_example. Qed.
 
